@@ -171,6 +171,10 @@ def run_unit(prop, u, tier, ctx, here):
             if f["harness"] == hname:
                 f["rendered"] += "\nconcrete playback (values of kani::any() calls in order): %s\n" % (pb or "(not produced)")
                 f["kani_playback"] = pb
+                if pb:
+                    # the harness runs the function text extracted from /repo: these values are a failing input of that code
+                    f["input"] = {"kani_concrete_playback": "values of the harness's kani::any() calls, in order: %s" % pb, "harness": hname}
+                    f["replay_result"] = "Kani concrete playback of harness %s (extracted code); see the assertion text above" % hname
     rec["failures"] = failures
     if failures:
         rec["status"] = "failed"
